@@ -11,7 +11,19 @@ import (
 	"os"
 
 	"verif/bmx"
+
+	"github.com/microcosm-cc/bluemonday"
 )
+
+// safeSanitize runs Sanitize and reports a panic as the literal PANIC.
+func safeSanitize(p *bluemonday.Policy, in []byte) (res string) {
+	defer func() {
+		if e := recover(); e != nil {
+			res = "PANIC"
+		}
+	}()
+	return bmx.HexField([]byte(p.Sanitize(string(in))))
+}
 
 func main() {
 	family := flag.String("family", "tok", "case family")
@@ -44,6 +56,26 @@ func main() {
 				in = bmx.RandMalformed(r, 1+r.Intn(40))
 			}
 			fmt.Fprintf(w, "tok %s %s\n", bmx.HexField(in), bmx.EncTokens(bmx.Tokenize(in)))
+		}
+	case "san":
+		pid := 0
+		for i := 0; i < *n; {
+			ops := bmx.RandPolicyOps(r)
+			pid++
+			pol := bmx.Build(ops)
+			fmt.Fprintf(w, "policy %d %s %s\n", pid, bmx.EncodeOps(ops), bmx.HexS(pol.VerifDump(bmx.RegexNamer(ops))))
+			g := bmx.NewDocGen(r, ops)
+			for k := 0; k < 8 && i < *n; k++ {
+				var in []byte
+				if k == 7 {
+					in = bmx.RandMalformed(r, 1+r.Intn(20))
+				} else {
+					in = g.Doc(1 + r.Intn(14))
+				}
+				out := safeSanitize(pol, in)
+				fmt.Fprintf(w, "san %d %s %s\n", pid, bmx.HexField(in), out)
+				i++
+			}
 		}
 	default:
 		fmt.Fprintln(os.Stderr, "unknown family")
